@@ -144,6 +144,14 @@ def token_classes(all_exprs):
             pool = words | marks | {"zz"}
         for v in sorted(pool):
             classes.append((kind, v))
+        # 'every possible token': the same values with blanks around them (a lexer rule may attach them), which predicates
+        # that strip or do not strip their operand tell apart differently
+        if kind in T.Punctuation or kind in T.Operator:
+            for v in sorted(pool):
+                classes += [(kind, v + " "), (kind, " " + v), (kind, v + "\n")]
+        elif kind in (T.Keyword, T.Name):
+            for v in sorted(pool):
+                classes.append((kind, v + " "))
     return classes
 
 
